@@ -11,7 +11,8 @@ From Verif Require Import lib.Wire c15.Lts c15.Model c15.Spec c15.Proofs c15.Pro
   c15.Proofs_First c15.Proofs_Wild c15.Proofs_Live c15.Proofs_Dead c15.Proofs_Pend c15.Proofs_Idx c15.Proofs_Prog
   c15.Proofs_Valid c15.Proofs_WildOK c15.Proofs_Blk c15.Proofs_Obs c15.Proofs_Loc3 c15.Proofs_WSI c15.Proofs_TY c15.Proofs_Rule13 c15.Proofs_Reads
   c15.Proofs_Wire c15.Proofs_Disc c15.Proofs_Mon c15.Proofs_Cpl c15.Proofs_RCtx c15.Proofs_Prom c15.Proofs_R3 c15.Proofs_CEv c15.Proofs_ChI c15.Proofs_R5 c15.Proofs_Loc4 c15.Proofs_R4
-  c15.Proofs_RegA c15.Proofs_RegB c15.Proofs_RegW c15.Proofs_RegRun c15.Proofs_MD c15.Proofs_RF c15.Proofs_R9 c15.Proofs_R7 c15.Proofs_Head.
+  c15.Proofs_RegA c15.Proofs_RegB c15.Proofs_RegW c15.Proofs_RegRun c15.Proofs_MD c15.Proofs_RF c15.Proofs_R9 c15.Proofs_R7
+  c15.Proofs_NodeEv c15.Proofs_Keep c15.Proofs_EmitPc c15.Proofs_Last c15.Proofs_Old c15.Proofs_R6 c15.Proofs_Z c15.Proofs_R8 c15.Proofs_Head.
 Import ListNotations.
 
 (* the checked tie: a label trace accepted by conform_case's search is the
@@ -205,21 +206,17 @@ Theorem c15_init_state_wf_init : forall nt sl ml el,
 Proof. exact init_state_wf_init. Qed.
 Print Assumptions c15_init_state_wf_init.
 
-(* MONITOR RULES 1-3 ON EVERY MODEL TRACE (decoded form; _partial: the wire-level
-   check_read of Spec.v is not formally connected to this statement, and rules 4-10
-   and 12 are covered on the model side only by c15_exactly_once_in_order /
-   c15_wildcard_same_rules / c15_history_append_only / c15_stateful_replay_first /
-   c15_closed_is_unlisted / c15_emit_blocks_not_drops, without a coupling to the
-   monitor's own functions): whatever value the consumer of s reports is the event
-   of an Emit call that has started, of a type s subscribes to (any type if s is a
-   wildcard subscription). *)
-Theorem c15_monitor_reads_partial : forall st sched s v, wf_init st -> In (LRead s v) (trace step st sched) -> (v <> -2)%Z ->
+(* provenance of reported values on every model trace (the state-level fact behind rules 1-3;
+   the rules themselves, with the monitor's functions, are c15_monitor_rule1..3 below): whatever
+   value the consumer of s reports is the event of an Emit call that has started, of a type s
+   subscribes to (any type if s is a wildcard subscription). *)
+Theorem c15_monitor_reads_provenance : forall st sched s v, wf_init st -> In (LRead s v) (trace step st sched) -> (v <> -2)%Z ->
   exists k e m c, nth_error (emits (run step st sched)) k = Some e /\ eev e = v /\
     (o_started (trace step st sched) (TEmit k) || o_returned (trace step st sched) (TEmit k)) = true /\
     nth_error (emitters (run step st sched)) (eem e) = Some m /\ nth_error (subs (run step st sched)) s = Some c /\
     (styps c = None \/ exists tys, styps c = Some tys /\ In (mty m) tys).
 Proof. exact reads_provenance_l. Qed.
-Print Assumptions c15_monitor_reads_partial.
+Print Assumptions c15_monitor_reads_provenance.
 
 (* the same for holders of the wildcard read lock *)
 Theorem c15_reader_progress_partial : forall st sched k e n todo, initial st ->
@@ -324,12 +321,22 @@ Print Assumptions c15_monitor_rule4.
 (* rule 5: no duplicates *)
 Theorem c15_monitor_rule5 : read_rule_ok 5. Proof. exact rule5_ok. Qed.
 Print Assumptions c15_monitor_rule5.
+(* rule 6: an event whose Emit returned before Subscribe started arrives only as the retained event of a
+   stateful type, first of its type, and it is the last such event *)
+Theorem c15_monitor_rule6 : read_rule_ok 6. Proof. exact rule6_ok. Qed.
+Print Assumptions c15_monitor_rule6.
 (* rule 7: no event is overtaken by the event of a later, non-overlapping Emit *)
 Theorem c15_monitor_rule7 : read_rule_ok 7. Proof. exact rule7_ok. Qed.
 Print Assumptions c15_monitor_rule7.
+(* rule 8: a due retained event is delivered before fresh events of its type *)
+Theorem c15_monitor_rule8 : read_rule_ok 8. Proof. exact rule8_ok. Qed.
+Print Assumptions c15_monitor_rule8.
 (* rule 9: Emit does not return while a subscriber's channel is full (no drop) *)
 Theorem c15_monitor_rule9 : quiet_rule_ok 9. Proof. exact rule9_ok. Qed.
 Print Assumptions c15_monitor_rule9.
+(* rule 10: a consumer waiting at a quiescent point has been handed everything that is due (uses the discipline) *)
+Theorem c15_monitor_rule10 : quiet_rule_ok 10. Proof. exact rule10_ok. Qed.
+Print Assumptions c15_monitor_rule10.
 (* rule 12 from rule 13: at the end marker (final_ok) nothing is left in flight *)
 Theorem c15_monitor_rule12_from_rule13 : forall o tr, all_closing tr (length (o_sub o)) -> all_subscribed tr (length (o_sub o)) ->
   blocked_badly o tr = None -> existsb (fun t => o_started tr t && negb (o_returned tr t)) (o_ops o) = false.
@@ -353,20 +360,33 @@ Theorem c15_emit_never_drops : forall c s1 s cs k e, cfg_wf c = true -> nth_erro
 Proof. exact fresh_delivered. Qed.
 Print Assumptions c15_emit_never_drops.
 
-(* THE HEADLINE, _partial: for every well-formed configuration, every disciplined schedule and
-   fin = 0 (log stops) or fin = 5 (end marker written in a final_ok state: quiescent, every
-   returned Subscribe closing, no Subscribe still in flight - the last condition excludes
-   exactly the known finding, see c15_no_deadlock_full_refuted), the monitor either accepts
-   the wire line of the run or names one of missing_rules.  MISSING (the only gap): the
-   coupling of the stateful-replay rules 6, 8 and of rule 10 (whose second half is the
-   replay clause) - on the model side they are covered by c15_stateful_replay_first,
-   c15_nothing_before_join and c15_exactly_once_in_order. *)
-Theorem c15_monitor_accepts_model_partial : forall c sched fin,
+(* the replay side: which node an Emit locks, what a node retains, old events, due replays *)
+Theorem c15_same_node : forall c s1, cfg_wf c = true -> SN (St c s1) (Tr c s1).
+Proof. exact sn_cfg. Qed.
+Print Assumptions c15_same_node.
+Theorem c15_retained_event : forall c s1, cfg_wf c = true -> NL (St c s1) (Tr c s1).
+Proof. exact nl_cfg. Qed.
+Print Assumptions c15_retained_event.
+Theorem c15_old_event_is_the_retained_one : forall c s1, cfg_wf c = true -> OLD (St c s1) (Tr c s1).
+Proof. exact old_cfg. Qed.
+Print Assumptions c15_old_event_is_the_retained_one.
+Theorem c15_due_replay_is_promised_first : forall c s1, cfg_wf c = true -> ZI (St c s1) (Tr c s1).
+Proof. exact z_cfg. Qed.
+Print Assumptions c15_due_replay_is_promised_first.
+
+(* THE HEADLINE: THE MONITOR ACCEPTS EVERY TRACE OF THE MODEL.  For every well-formed
+   configuration, every disciplined schedule and fin = 0 (the log stops) or fin = 5 (end marker,
+   written in a final_ok state: quiescent, every returned Subscribe closing, no Subscribe still
+   in flight - the last conjunct excludes exactly the known finding, the crossing multi-type
+   Subscribe deadlock, see c15_no_deadlock_full_refuted), monitor_case run on the WIRE line the
+   harness would write for that run answers [] (accepted): all of rules 1-13, with the monitor's
+   own functions, decoding included. *)
+Theorem c15_monitor_accepts_model : forall c sched fin,
   cfg_wf c = true -> nonneg (c_ntypes c) = true -> Disc c sched ->
   (fin = 0 \/ (fin = 5 /\ final_ok c sched))%Z ->
-  allowed missing_rules (monitor_case (wire_of_run c sched fin)).
-Proof. exact monitor_accepts_model_partial_l. Qed.
-Print Assumptions c15_monitor_accepts_model_partial.
+  monitor_case (wire_of_run c sched fin) = [].
+Proof. exact monitor_accepts_model_l. Qed.
+Print Assumptions c15_monitor_accepts_model.
 
 (* ---- non-vacuity ------------------------------------------------------------- *)
 (* one stateful emitter of type 0, one typed subscription (buffer 1), events 100
